@@ -191,6 +191,9 @@ def check(repo, rep, tier):
                                   'a printer calls %s (%s), which rebinds a module-level setting: rendering changes what later renderings and readers of the same process see'
                                   % (imported.get(nm, nm), setters[imported.get(nm, nm)]))
     rep.ok('R18.2', 'depccg/printer/*', 'no printer calls one of the %d functions of the package that rebind module-level settings (%s)' % (len(setters), sorted(setters)[:4]), nontrivial=bool(setters))
+    from ..lints import r_no_reordering
+    r_no_reordering(repo, rep, 'R18.2', [('depccg/printer/__init__.py', 'to_string'), ('depccg/printer/__init__.py', 'print_')],
+                    'the sentences and the trees of a sentence (a set of trees is walked in the order of their addresses: a copy of the same results comes out in another order)')
     from ..lints import r_no_ambient_reads
     r_no_ambient_reads(repo, rep, 'R18.2', repo.py_files('depccg/printer'),
                        'rendering the same results again gives another text')
